@@ -1,9 +1,11 @@
 (** C13 - instances of the generic optimizer theorems: quality in R, a concrete run that satisfies
     every hypothesis (satisfiability), and the counterexample showing that "no worse" needs the
     clamps to sit on entry. *)
-From Coq Require Import List Bool Arith Lia Reals Lra.
-From CB Require Import Model.C13_Optimizer Proofs.C13_Optimizer.
+From Coq Require Import List Bool Arith Lia Reals Lra QArith.
+From CB Require Import Model.C13_Optimizer Model.C13_Cases Proofs.C13_Optimizer Proofs.C13_Whole.
 Import ListNotations.
+Close Scope Q_scope.
+Open Scope nat_scope.
 
 (** * quality in R *)
 Definition Rleb (a b : R) : bool := if Rle_dec a b then true else false.
@@ -28,6 +30,47 @@ Proof.
   destruct (run_events_no_worse X P R Rleb g Rleb_total Rleb_trans evs st tr fin q Hwf I H C Hq) as (q' & Hq' & L).
   exists q'. split; auto. apply Rleb_le; auto.
 Qed.
+
+(** the strict rollback test "improvement < 0" (ties are kept), order <= *)
+Definition Rltb (a b : R) : bool := if Rlt_dec a b then true else false.
+
+Lemma Rleb_refl : reflexive_le Rleb.
+Proof. intro a. apply Rleb_le. lra. Qed.
+
+Lemma Rltb_keeps : keeps_no_worse Rltb Rleb.
+Proof. intros a b H. apply Rleb_le. unfold Rltb in H. destruct (Rlt_dec a b); [discriminate|lra]. Qed.
+
+Lemma no_worse_real_strict :
+  forall (X P : Type) (g : grid X P R) (evs : list (event X)) (st : state X P) tr fin q,
+    wf g (length (pts st)) -> inv g st ->
+    run_events Rltb g st evs = (tr, fin) -> completed tr = true ->
+    g_gq g (pts st) = Some q ->
+    exists q', g_gq g (pts fin) = Some q' /\ (q' <= q)%R.
+Proof.
+  intros X P g evs st tr fin q Hwf I H C Hq.
+  destruct (run_events_no_worse_gen X P R Rltb Rleb g Rleb_refl Rleb_trans Rltb_keeps evs st tr fin q Hwf I H C Hq)
+    as (q' & Hq' & L).
+  exists q'. split; auto. apply Rleb_le; auto.
+Qed.
+
+(** * the two tests the correspondence accepts (Model/C13_Cases.v: exact binary64 values in Q) satisfy
+    the hypotheses of the theorems *)
+Lemma Qle_bool_total : total Qle_bool.
+Proof.
+  intros a b. rewrite !Qle_bool_iff. destruct (Qlt_le_dec a b) as [H|H]; [left; apply Qlt_le_weak; auto|right; auto].
+Qed.
+
+Lemma Qle_bool_trans : transitive Qle_bool.
+Proof. intros a b c. rewrite !Qle_bool_iff. apply Qle_trans. Qed.
+
+Lemma Qle_bool_refl : reflexive_le Qle_bool.
+Proof. intro a. apply Qle_bool_iff. apply Qle_refl. Qed.
+
+Lemma Qlt_bool_keeps : keeps_no_worse Qlt_bool Qle_bool.
+Proof. intros a b H. unfold Qlt_bool in H. apply negb_false_iff in H. exact H. Qed.
+
+Lemma Qle_bool_keeps : keeps_no_worse Qle_bool Qle_bool.
+Proof. apply total_keeps. exact Qle_bool_total. Qed.
 
 (** * natural numbers as points, parameters and quality values *)
 Lemma nat_total : total Nat.leb.
